@@ -252,11 +252,14 @@ int __wrap_getaddrinfo(const char *n, const char *s, const struct addrinfo *h, s
 }
 
 /* ---- subprocess ---- */
+void verif_note_child(int pid);
 pid_t __real_fork(void);
 pid_t __wrap_fork(void) {
     sbx_note(JANET_SANDBOX_SUBPROCESS, "fork", "");
     if (sbx_deny) return deny();
-    return __real_fork();
+    pid_t r = __real_fork();
+    if (r > 0) verif_note_child((int) r);
+    return r;
 }
 int __real_posix_spawn(pid_t *pid, const char *path, const posix_spawn_file_actions_t *fa,
                        const posix_spawnattr_t *at, char *const argv[], char *const envp[]);
@@ -264,7 +267,10 @@ int __wrap_posix_spawn(pid_t *pid, const char *path, const posix_spawn_file_acti
                        const posix_spawnattr_t *at, char *const argv[], char *const envp[]) {
     sbx_note(JANET_SANDBOX_SUBPROCESS, "posix_spawn", path);
     if (sbx_deny) return EPERM;
-    return __real_posix_spawn(pid, path, fa, at, argv, envp);
+    pid_t tmp = 0;
+    int r = __real_posix_spawn(pid ? pid : &tmp, path, fa, at, argv, envp);
+    if (r == 0) verif_note_child((int)(pid ? *pid : tmp));
+    return r;
 }
 int __real_posix_spawnp(pid_t *pid, const char *path, const posix_spawn_file_actions_t *fa,
                         const posix_spawnattr_t *at, char *const argv[], char *const envp[]);
@@ -272,7 +278,10 @@ int __wrap_posix_spawnp(pid_t *pid, const char *path, const posix_spawn_file_act
                         const posix_spawnattr_t *at, char *const argv[], char *const envp[]) {
     sbx_note(JANET_SANDBOX_SUBPROCESS, "posix_spawnp", path);
     if (sbx_deny) return EPERM;
-    return __real_posix_spawnp(pid, path, fa, at, argv, envp);
+    pid_t tmp = 0;
+    int r = __real_posix_spawnp(pid ? pid : &tmp, path, fa, at, argv, envp);
+    if (r == 0) verif_note_child((int)(pid ? *pid : tmp));
+    return r;
 }
 int __real_execv(const char *p, char *const argv[]);
 int __wrap_execv(const char *p, char *const argv[]) {
